@@ -281,3 +281,396 @@ def draw_ts(rng, method):
         if ts.num_mutations >= 5 and ts.num_edges > 0:
             return unknown_mut_times(ts), info
     return unknown_mut_times(ts), info
+
+
+# ============================================================================= stage B
+# The Lean model (Driver/Scale.lean, Float carrier) against the real functions.
+
+def _hx(xs):
+    return " ".join(f2h(x) for x in xs)
+
+
+def _ns(xs):
+    return " ".join(str(int(x)) for x in xs)
+
+
+class Batch:
+    """Collects driver cases, runs them in one driver process, hands back parsed replies."""
+
+    def __init__(self):
+        self.blocks = []
+        self.meta = []
+
+    def add(self, op, fields, meta):
+        i = len(self.blocks)
+        lines = [f"case {i}", f"op {op}"]
+        for k, v in fields.items():
+            if v is None:
+                continue
+            lines.append(f"{k} {v}")
+        lines.append("end")
+        self.blocks.append("\n".join(lines) + "\n")
+        self.meta.append(dict(meta, op=op, fields={k: v for k, v in fields.items() if v is not None}))
+        return i
+
+    def run(self):
+        if not self.blocks:
+            return {}
+        out = {}
+        for ln in common.lean_driver("Scale", "".join(self.blocks)):
+            parts = ln.split(" ", 1)
+            if not parts or not parts[0].isdigit():
+                continue
+            i = int(parts[0])
+            body = parts[1] if len(parts) > 1 else ""
+            if body.strip() == "bad-op":
+                out[i] = None
+            else:
+                out[i] = [sec.split() for sec in body.split("|")]
+        return out
+
+
+def fsec(sec):
+    return np.array([h2f(x) for x in sec], dtype=float)
+
+
+def same_bits(a, b):
+    a = np.asarray(a, dtype=float)
+    b = np.asarray(b, dtype=float)
+    return a.shape == b.shape and all(f2h(x) == f2h(y) for x, y in zip(a, b))
+
+
+@contextlib.contextmanager
+def record_discrete():
+    """Record (a) every Poisson call (k, lambda array) and (b) every fill_priors call (coalescent
+    timepoints, population-size history, resulting time grid) made by the real code."""
+    import scipy.stats
+    import tsdate.prior as prior
+    rec = dict(pmf=[], fill=[])
+    p = scipy.stats.poisson
+    o_pmf, o_logpmf = p.pmf, p.logpmf
+
+    def mk(orig, name):
+        def w(k, mu, *a, **kw):
+            rec["pmf"].append((name, int(np.asarray(k).reshape(-1)[0]) if np.ndim(k) else int(k),
+                               np.array(mu, dtype=float, copy=True).reshape(-1)))
+            return orig(k, mu, *a, **kw)
+        return w
+
+    p.pmf = mk(o_pmf, "pmf")
+    p.logpmf = mk(o_logpmf, "logpmf")
+    o_fill = prior.fill_priors
+
+    def fill(node_parameters, timepoints, ts, population_size, **kw):
+        out = o_fill(node_parameters, timepoints, ts, population_size, **kw)
+        rec["fill"].append(dict(coal=np.array(timepoints, dtype=float, copy=True),
+                                ps=np.array(population_size.population_size, dtype=float) / 2,
+                                tb=np.array(population_size.time_breaks[1:], dtype=float),
+                                grid=np.array(out.timepoints, dtype=float, copy=True)))
+        return out
+
+    prior.fill_priors = fill
+    try:
+        yield rec
+    finally:
+        del p.pmf
+        del p.logpmf
+        prior.fill_priors = o_fill
+
+
+def corr_discrete(ts, kw, rec, fit, batch, tag):
+    """Queue driver cases for one real discrete run; returns a list of deferred checks
+    (callables taking the driver replies and returning a list of (kind, what))."""
+    checks = []
+    method = kw["method"]
+    eps, mu = float(kw["eps"]), float(kw["mutation_rate"])
+    # ---- prior grid
+    for f in rec["fill"]:
+        utp = kw.get("timepoints")
+        fields = dict(ps=_hx(f["ps"]), tb=_hx(f["tb"]) if f["tb"].size else None)
+        if utp is not None and not isinstance(utp, int):
+            fields["tp"] = _hx(sorted(float(x) for x in utp))
+        else:
+            fields["coal"] = _hx(f["coal"])
+        i = batch.add("grid", fields, dict(tag=tag))
+
+        def chk(rep, i=i, f=f):
+            r = rep.get(i)
+            if r is None:
+                return [("model-rejects-grid", f"{tag}: driver refused the prior-grid case")]
+            bad = []
+            if not same_bits(fsec(r[0]), f["coal"]):
+                bad.append(("coalescent-timepoints-differ", f"{tag}: coalescent timepoints of the model differ from fill_priors' argument"))
+            if not same_bits(fsec(r[1]), f["grid"]):
+                bad.append(("time-grid-differs", f"{tag}: model time grid differs from priors.timepoints"))
+            return bad
+        checks.append(chk)
+    grid = np.array(fit.lik.timepoints, dtype=float)
+    G = grid.size
+    # ---- likelihood arguments
+    fixed = set(int(x) for x in fit.fixednodes)
+    mut_edges = fit.lik.mut_edges
+    edges = [(int(mut_edges[e.id]), int(e.child), float(e.span), int(e.child) in fixed) for e in ts.edges()]
+    spans = sorted({e[2] for e in edges})
+    i_lik = batch.add("lik", dict(grid=_hx(grid), eps=f2h(eps), mu=f2h(mu), spans=_hx(spans)), dict(tag=tag))
+    # maximization candidates: for every recorded short call, every edge with that count, every parent index
+    cand = {}
+    if method == "maximization":
+        for (_, k, lam) in rec["pmf"]:
+            if lam.size == G * (G + 1) // 2 and G > 1:
+                continue
+            yi = lam.size - 1
+            for sp in sorted({e[2] for e in edges if e[0] == k}):
+                for pi in range(yi, G):
+                    key = (yi, pi, sp)
+                    if key not in cand:
+                        cand[key] = batch.add("maxargs", dict(grid=_hx(grid), eps=f2h(eps), mu=f2h(mu), span=f2h(sp),
+                                                              pi=str(pi), yi=str(yi)), dict(tag=tag))
+
+    def chk_lik(rep):
+        r = rep.get(i_lik)
+        if r is None:
+            return [("model-rejects-lik", f"{tag}: driver refused the likelihood case")]
+        tri = {sp: fsec(r[2 * j]) for j, sp in enumerate(spans)}
+        fx = {sp: fsec(r[2 * j + 1]) for j, sp in enumerate(spans)}
+        model_sets = {}
+        for (k, _, sp, _) in edges:
+            model_sets.setdefault(k, set()).add(tuple(f2h(x) for x in tri[sp]))
+            model_sets.setdefault(k, set()).add(tuple(f2h(x) for x in fx[sp]))
+        for (yi, pi, sp), ci in cand.items():
+            rr = rep.get(ci)
+            if rr is not None:
+                for (k, _, sp2, _) in edges:
+                    if sp2 == sp:
+                        model_sets.setdefault(k, set()).add(tuple(rr[0]))
+        bad = []
+        seen = {}
+        for (name, k, lam) in rec["pmf"]:
+            key = tuple(f2h(x) for x in lam)
+            seen.setdefault(k, set()).add(key)
+            if key not in model_sets.get(k, set()):
+                bad.append(("poisson-argument-not-in-model",
+                            f"{tag}: a Poisson parameter vector passed to {name} (k={k}, len={lam.size}) is not "
+                            f"dt*mu*span of the model for any edge"))
+                break
+        # coverage: every edge's model vector was actually used by the code
+        for (k, _, sp, fx_child) in edges:
+            want = tuple(f2h(x) for x in (fx[sp] if fx_child else tri[sp]))
+            if want not in seen.get(k, set()):
+                bad.append(("edge-likelihood-never-computed",
+                            f"{tag}: the model's Poisson parameters of an edge (k={k}, span={sp}) were never passed to scipy"))
+                break
+        return bad
+    checks.append(chk_lik)
+    # ---- spans and span fractions
+    roots = [(int(t.root), float(t.span)) for t in ts.trees(root_threshold=2) if t.has_single_root]
+    i_sp = batch.add("spans", dict(muts=_ns([e[0] for e in edges]), child=_ns([e[1] for e in edges]),
+                                   span=_hx([e[2] for e in edges]),
+                                   rootid=_ns([r[0] for r in roots]) if roots else None,
+                                   rootspan=_hx([r[1] for r in roots]) if roots else None,
+                                   nodes=str(ts.num_nodes)), dict(tag=tag))
+
+    def chk_sp(rep):
+        r = rep.get(i_sp)
+        if r is None:
+            return [("model-rejects-spans", f"{tag}: driver refused the spans case")]
+        ns = fsec(r[0])
+        real = np.array(fit.spans, dtype=float)
+        if not same_bits(ns, real):
+            if relerr(ns, real) > 1e-13:
+                return [("node-spans-differ", f"{tag}: model node spans differ from BeliefPropagation.spans")]
+        sf = fsec(r[1])
+        real_sf = np.array([e.span / fit.spans[e.child] for e in ts.edges()])
+        if relerr(sf, real_sf) > 1e-13:
+            return [("span-fractions-differ", f"{tag}: model span fractions differ")]
+        return []
+    checks.append(chk_sp)
+    # ---- posterior mean / variance (inside_outside)
+    if method == "inside_outside":
+        import tsdate.core as core
+        post = fit.posterior_grid
+        mn, va = core.DiscreteTimeMethod.mean_var(ts, post)
+        for u in list(post.nonfixed_nodes)[:6]:
+            probs = np.array(post[u], dtype=float)
+            iu = batch.add("meanvar", dict(probs=_hx(probs), times=_hx(post.timepoints)), dict(tag=tag))
+
+            def chk_mv(rep, iu=iu, u=int(u)):
+                r = rep.get(iu)
+                if r is None:
+                    return [("model-rejects-meanvar", f"{tag}: driver refused mean_var of node {u}")]
+                m = fsec(r[0])
+                if relerr([m[0]], [mn[u]]) > 1e-12 or relerr([m[1]], [va[u]]) > 1e-10:
+                    return [("mean-var-differs", f"{tag}: model mean/var of node {u} = {m[0]!r},{m[1]!r}, "
+                                                 f"mean_var gives {mn[u]!r},{va[u]!r}")]
+                return []
+            checks.append(chk_mv)
+    return checks
+
+
+def vg_inputs(ts, mu, size_biased):
+    """The arrays `ExpectationPropagation.rescale` hands to mutational_timescale."""
+    from tsdate import rescaling
+    lik, _ = rescaling.count_mutations(ts, size_biased=size_biased)
+    stats = lik.copy()
+    lik = lik.copy()
+    lik[:, 1] *= mu
+    fixed = np.zeros(ts.num_nodes, dtype=bool)
+    fixed[list(ts.samples())] = True
+    return stats, lik, fixed
+
+
+def corr_rescale(ts, mu, t, k, iters, size_biased, batch, tag):
+    """mutational_area / mutational_timescale / piecewise_scale_point_estimate / the rescale loop."""
+    from tsdate import rescaling
+    stats, lik, fixed = vg_inputs(ts, mu, size_biased)
+    ep, ec = ts.edges_parent, ts.edges_child
+    checks = []
+    base = dict(t=_hx(t), y=_hx(lik[:, 0]), m=_hx(lik[:, 1]), ep=_ns(ep), ec=_ns(ec))
+    i_el = batch.add("edgelik", dict(y=_hx(stats[:, 0]), span=_hx(stats[:, 1]), mu=f2h(mu)), dict(tag=tag))
+
+    def chk_el(rep):
+        r = rep.get(i_el)
+        if r is None or not same_bits(fsec(r[0]), lik[:, 1]):
+            return [("edge-likelihoods-differ", f"{tag}: model span*mu differs from edge_likelihoods[:,1]")]
+        return []
+    checks.append(chk_el)
+    counts, offset, duration, index = rescaling.mutational_area(t, lik, ep, ec)
+    i_ar = batch.add("area", base, dict(tag=tag))
+
+    def chk_ar(rep):
+        r = rep.get(i_ar)
+        if r is None:
+            return [("model-rejects-area", f"{tag}: driver refused mutational_area")]
+        bad = []
+        if [int(x) for x in r[3]] != [int(x) for x in index]:
+            bad.append(("area-index-differs", f"{tag}: nodes_index of the model differs from mutational_area"))
+        for name, sec, real in (("counts", r[0], counts), ("offset", r[1], offset), ("duration", r[2], duration)):
+            if not same_bits(fsec(sec), real):
+                bad.append((f"area-{name}-differs", f"{tag}: model {name} differ from mutational_area "
+                                                    f"(max rel {relerr(fsec(sec), real):.3g})"))
+        return bad
+    checks.append(chk_ar)
+    try:
+        origin, adjust = rescaling.mutational_timescale(t, lik, fixed, ep, ec, k)
+        ok = bool(np.all(np.isfinite(origin)) and np.all(np.isfinite(adjust)))
+    except BaseException as e:  # noqa: BLE001   (AssertionError "Zero edge span in interval")
+        if isinstance(e, (KeyboardInterrupt, MemoryError)):
+            raise
+        ok = False
+    i_ts = batch.add("timescale", dict(base, k=str(k)), dict(tag=tag))
+    if not ok:
+        def chk_rej(rep):
+            return [] if rep.get(i_ts) is None else \
+                [("model-accepts-rejected-timescale", f"{tag}: mutational_timescale raised / non-finite but the model returned")]
+        checks.append(chk_rej)
+        return checks, None
+
+    def chk_ts(rep):
+        r = rep.get(i_ts)
+        if r is None:
+            return [("model-rejects-timescale", f"{tag}: driver refused mutational_timescale")]
+        bad = []
+        if not same_bits(fsec(r[0]), origin):
+            bad.append(("timescale-origin-differs", f"{tag}: model origin differs (max rel {relerr(fsec(r[0]), origin):.3g})"))
+        if not same_bits(fsec(r[1]), adjust):
+            bad.append(("timescale-adjust-differs", f"{tag}: model adjust differs (max rel {relerr(fsec(r[1]), adjust):.3g})"))
+        return bad
+    checks.append(chk_ts)
+    strictly = bool(np.all(np.diff(origin) > 0) and np.all(np.diff(adjust) > 0))
+    if strictly and origin.size >= 2:
+        out = rescaling.piecewise_scale_point_estimate(t, fixed, origin, adjust)
+        i_pw = batch.add("piecewise", dict(x=_hx(t), fixed=_ns(fixed.astype(int)), orig=_hx(origin), resc=_hx(adjust)),
+                         dict(tag=tag))
+
+        def chk_pw(rep):
+            r = rep.get(i_pw)
+            if r is None or not same_bits(fsec(r[0]), out):
+                return [("piecewise-differs", f"{tag}: model piecewise_scale_point_estimate differs")]
+            return []
+        checks.append(chk_pw)
+        # the loop
+        cur = t.copy()
+        good = True
+        try:
+            for _ in range(iters):
+                o, a = rescaling.mutational_timescale(cur, lik, fixed, ep, ec, k)
+                cur = rescaling.piecewise_scale_point_estimate(cur, fixed, o, a)
+            good = bool(np.all(np.isfinite(cur)))
+        except BaseException as e:  # noqa: BLE001
+            if isinstance(e, (KeyboardInterrupt, MemoryError)):
+                raise
+            good = False
+        if good:
+            i_lp = batch.add("loop", dict(base, fixed=_ns(fixed.astype(int)), k=str(k), iters=str(iters)), dict(tag=tag))
+
+            def chk_lp(rep):
+                r = rep.get(i_lp)
+                if r is None or not same_bits(fsec(r[0]), cur):
+                    return [("rescale-loop-differs", f"{tag}: model rescale loop differs after {iters} iterations"
+                             + ("" if r is None else f" (max rel {relerr(fsec(r[0]), cur):.3g})"))]
+                return []
+            checks.append(chk_lp)
+    return checks, (origin, adjust)
+
+
+def corr_mixture(ts, batch, tag, limit=4):
+    """mixture_expect_and_var on the span mixtures of real nodes (single total-tip class)."""
+    from tsdate import prior
+    checks = []
+    try:
+        sbs = prior.SpansBySamples(ts)
+    except BaseException as e:  # noqa: BLE001
+        if isinstance(e, (KeyboardInterrupt, MemoryError)):
+            raise
+        return checks, None
+    base = prior.ConditionalCoalescentTimes(None, "lognorm")
+    base.add(ts.num_samples, False)
+    for tf in sbs.total_fixed_at_0_counts:
+        if tf > 0:
+            base.add(tf, False)
+    done = 0
+    for node in sbs.nodes_to_date:
+        mix = sbs.get_spans(node)
+        if len(mix) != 1:
+            continue
+        N, arr = next(iter(mix.items()))
+        if arr.shape[0] < 2:
+            continue
+        means = base[N][arr["descendant_tips"], base.mean_column]
+        vars_ = base[N][arr["descendant_tips"], base.var_column]
+        mean, var = base.mixture_expect_and_var(mix)
+        i = batch.add("mixture", dict(means=_hx(means), vars=_hx(vars_), weights=_hx(arr["span"])), dict(tag=tag))
+
+        def chk(rep, i=i, mean=mean, var=var, node=int(node)):
+            r = rep.get(i)
+            if r is None:
+                return [("model-rejects-mixture", f"{tag}: driver refused the mixture of node {node}")]
+            m = fsec(r[0])
+            if relerr([m[0]], [mean]) > 1e-12 or abs(m[1] - var) > 1e-10 * max(abs(var), mean * mean):
+                return [("mixture-differs", f"{tag}: model mixture mean/var {m[0]!r},{m[1]!r} vs {mean!r},{var!r}")]
+            return []
+        checks.append(chk)
+        done += 1
+        if done >= limit:
+            break
+    return checks, done
+
+
+def corr_constrain(cases, batch, tag):
+    """`_constrain_ages` (numba) against the committed Lean model, bit for bit (cases as in constrain_corr)."""
+    from . import constrain_corr as cc
+    impl = [cc.run_impl(c) for c in cases]
+    checks = []
+    for c, o in zip(cases, impl):
+        i = batch.add("constrain", dict(eps=f2h(c["eps"]), iters=str(c["iters"]), fixed=_ns(np.asarray(c["fixed"]).astype(int)),
+                                        times=_hx(c["t"]), edges=" ".join(f"{p} {ch}" for p, ch in zip(c["ep"], c["ec"]))),
+                      dict(tag=tag))
+
+        def chk(rep, i=i, o=o, c=c):
+            r = rep.get(i)
+            if r is None or not same_bits(fsec(r[0]), o):
+                return [("constrain-model-differs", f"{tag}: _constrain_ages differs from the Lean model "
+                                                    f"(iters={c['iters']}, eps={c['eps']!r}, mode={c.get('mode')})")]
+            return []
+        checks.append(chk)
+    return impl, checks
